@@ -1030,6 +1030,29 @@ SHAPES += [("p_odd_app_names", odd_app_names), ("p_same_source_two_spellings", s
            ("p_global_deps_chain", global_deps_chain)]
 
 
+def bound_provider_backtracking(p, limit=6):
+    """laze's resolver tries the providers of a feature one after the other and resolves each candidate's own dependencies before it
+    accepts it. When `defaults:` make EVERY module of a file provide a feature AND depend on it, each candidate asks for the feature
+    again and the search is factorial in the number of such modules: with ten of them (several shapes add modules to the root file) one
+    (builder, app) pair takes 7 s, an eleventh multiplies that by about six, a whole run takes minutes to hours. laze finishes, with the
+    right answer — but a run that exceeds the harness's time limit is indistinguishable from a hang (DESIGN §9.3 (j)). Generated projects
+    therefore keep that self-feeding pattern to small files: above `limit` modules the defaults keep the `provides` and lose the
+    dependency on the provided name."""
+    n = sum(1 for _ in _modules(p, ("modules",)))
+    if n <= limit:
+        return
+    for path, d in _all_docs(p):
+        dm = (d.get("defaults") or {}).get("module") if isinstance(d.get("defaults"), dict) else None
+        if not isinstance(dm, dict):
+            continue
+        prov = {x for key in ("provides", "provides_unique") for x in (dm.get(key) or []) if isinstance(x, str)}
+        if not prov:
+            continue
+        for key in ("depends", "selects", "uses"):
+            if isinstance(dm.get(key), list):
+                dm[key] = [x for x in dm[key] if not (isinstance(x, str) and x.lstrip("?") in prov)]
+
+
 def apply(p, prof, seed, index):
     rng = random.Random(seed * 7919 + index * 31 + 17)
     applied = []
@@ -1039,4 +1062,5 @@ def apply(p, prof, seed, index):
             applied.append(knob[2:])
     if applied:
         p["shapes"] = applied
+    bound_provider_backtracking(p)
     return p
